@@ -40,10 +40,11 @@ theorem C18_tags (w₁ w₂ : Bool) (l₁ l₂ : Load) (h : l₁.hookedWith ≠ 
     tagFor .getCode w₁ l₁ ≠ tagFor .getCode w₂ l₂ :=
   tags_distinct w₁ w₂ l₁ l₂ h
 
-/-- the source read today confines the patch to `get_code` and puts the typechecker hash into the tag -/
+/-- the source read today confines the patch to `get_code`, puts the typechecker hash into the tag, and compiles
+    nothing under that tag that has not been through the transformer (no fallback path in `source_to_code`) -/
 theorem C18_generated_good :
     Generated.cachePatchScope = "get_code" ∧ Generated.cacheTagHasChecker = true ∧ Generated.hookKeyChain = "md5-everywhere" ∧
-    Generated.cacheTagVersion = 9 := by decide
+    Generated.cacheTagVersion = 9 ∧ Generated.hookAlwaysTransforms = true := by decide
 
 /-- with the patch spanning the whole `exec_module` a two-run history executes stale code: run 1
     hooks only `a` (which imports `b`), run 2 hooks both — `b` then runs the uninstrumented
